@@ -321,25 +321,32 @@ func (c *Ctx) dictLookup() {
 	if f != nil {
 		scan := false
 		var eq *ssa.Call
-		allInstrs(f, func(b *ssa.BasicBlock, in ssa.Instruction) {
-			if cl, ok := in.(*ssa.Call); ok && cl.Call.IsInvoke() && cl.Call.Method.Name() == "Equal" && inLoop(b) {
-				eq = cl
-			}
-		})
-		for _, b := range f.Blocks {
-			if b.Comment == "rangeindex.loop" {
-				scan = true
-			}
-		}
 		other := false
-		allInstrs(f, func(_ *ssa.BasicBlock, in ssa.Instruction) {
-			if cl, ok := in.(*ssa.Call); ok {
-				q := callQName(&cl.Call)
-				if strings.Contains(q, "BinarySearch") || strings.HasPrefix(q, "sort.") || (cl.Call.IsInvoke() && cl.Call.Method.Name() == "Compare") {
-					other = true
+		// the scan may be written in Get or in an unexported helper Get calls (keyIndex(keys, key))
+		for _, g := range c.helperClosure(f, 1, func(h *ssa.Function) bool { return plainHelper(h) == nil }) {
+			hasEq := false
+			allInstrs(g, func(b *ssa.BasicBlock, in ssa.Instruction) {
+				if cl, ok := in.(*ssa.Call); ok && cl.Call.IsInvoke() && cl.Call.Method.Name() == "Equal" && inLoop(b) {
+					eq = cl
+					hasEq = true
+				}
+			})
+			if hasEq {
+				for _, b := range g.Blocks {
+					if b.Comment == "rangeindex.loop" {
+						scan = true
+					}
 				}
 			}
-		})
+			allInstrs(g, func(_ *ssa.BasicBlock, in ssa.Instruction) {
+				if cl, ok := in.(*ssa.Call); ok {
+					q := callQName(&cl.Call)
+					if strings.Contains(q, "BinarySearch") || strings.HasPrefix(q, "sort.") || (cl.Call.IsInvoke() && cl.Call.Method.Name() == "Compare") {
+						other = true
+					}
+				}
+			})
+		}
 		c.check(scan && eq != nil && !other, R, "Get scans all keys with Equal", f.Pos(), "range over keys, Equal on each, no ordering assumption", "Hashmap.Get no longer compares the requested key with every stored key: decoded dictionaries list keys in key-bit order, which is not the order of Compare (signed keys), so an order-based search misses present keys")
 		// returns values[i] for the index of the matching key
 		okIdx := false
@@ -359,7 +366,12 @@ func (c *Ctx) dictLookup() {
 	for _, g := range c.moduleFuncs("tlb") {
 		allInstrs(g, func(_ *ssa.BasicBlock, in ssa.Instruction) {
 			if cl, ok := in.(*ssa.Call); ok && cl.Call.IsInvoke() && cl.Call.Method.Name() == "Compare" {
-				callers = append(callers, fnName(g))
+				name := fnName(g)
+				// an unexported helper called only from Put is Put's code
+				if via, ok := helperOf(g, func(n string) bool { return n == "(*tlb.Hashmap[keyT, T]).Put" }, 0); ok {
+					name = via
+				}
+				callers = append(callers, name)
 			}
 		})
 	}
@@ -675,10 +687,62 @@ func appendFeeds(b *ssa.BasicBlock, target ssa.Value) bool {
 // the bits are EQUAL.
 func (c *Ctx) dictResults() {
 	const R = "E12.dict-lookup"
-	equalFact := func(f *ssa.Function, b *ssa.BasicBlock) (seen, truth bool) {
+	directEqual := func(f *ssa.Function, b *ssa.BasicBlock) (seen, truth bool) {
 		for _, ft := range factsAt(f, b) {
 			if cl := callOf(ft.Cond); cl != nil && cl.Call.IsInvoke() && cl.Call.Method.Name() == "Equal" {
 				return true, ft.Truth
+			}
+		}
+		return false, false
+	}
+	// an index finder: an unexported helper that returns the index at which Equal matched and a negative
+	// constant when the scan ends without a match (keyIndex(keys, key) int)
+	indexFinder := func(h *ssa.Function) bool {
+		if plainHelper(h) == nil || h.Signature.Results().Len() != 1 || !isInteger(h.Signature.Results().At(0).Type()) {
+			return false
+		}
+		hit, miss := 0, 0
+		for _, r := range returnsOf(h) {
+			v := retVal(r, 0)
+			seen, truth := directEqual(h, r.Block())
+			if k, ok := constInt(v); ok {
+				if k >= 0 || (seen && truth) {
+					return false
+				}
+				miss++
+				continue
+			}
+			if !seen || !truth {
+				return false
+			}
+			hit++
+		}
+		return hit >= 1 && miss >= 1
+	}
+	equalFact := func(f *ssa.Function, b *ssa.BasicBlock) (seen, truth bool) {
+		if s, t := directEqual(f, b); s {
+			return s, t
+		}
+		for _, ft := range factsAt(f, b) {
+			bo, ok := ft.Cond.(*ssa.BinOp)
+			if !ok {
+				continue
+			}
+			cl := callOf(bo.X)
+			k, isK := constInt(bo.Y)
+			if cl == nil || !isK || cl.Call.StaticCallee() == nil || !indexFinder(origin(cl.Call.StaticCallee())) {
+				continue
+			}
+			// does the fact say "the result is a real index" (>= 0) or "it is the negative no-match value"?
+			op := bo.Op
+			if !ft.Truth {
+				op = map[token.Token]token.Token{token.LSS: token.GEQ, token.GEQ: token.LSS, token.GTR: token.LEQ, token.LEQ: token.GTR, token.EQL: token.NEQ, token.NEQ: token.EQL}[op]
+			}
+			switch {
+			case (op == token.GEQ && k == 0) || (op == token.GTR && k == -1) || (op == token.NEQ && k < 0):
+				return true, true
+			case (op == token.LSS && k == 0) || (op == token.LEQ && k == -1) || (op == token.EQL && k < 0):
+				return true, false
 			}
 		}
 		return false, false
